@@ -49,7 +49,11 @@ func vRunCase(c vCase) (result string, obs []vObs) {
 				default:
 					msg := fmt.Sprint(r)
 					msg = strings.ReplaceAll(msg, "\n", " ")
-					done <- "panic:" + msg
+					if len(st.failures) > 0 {
+						done <- "fail:" + strings.Join(st.failures, "|") + "|panic:" + msg
+					} else {
+						done <- "panic:" + msg
+					}
 				}
 				return
 			}
